@@ -129,6 +129,16 @@ def mapfile_cases(rng):
             '!anmmap\n!difficulty_flags\n0 é-\n', '!anmmap\n!enum(name="foo")\n1 a\n2 a\n', '!anmmap\n!enum(name="foo")\n1 a\n!enum(name="bar")\n2 a\n', '!anmmap\n!enum(name="")\n1 a\n', '!anmmap\n!enum(\n',
             '!anmmap\n!bogus_section\n1 a\n', '!eclmap\n!ins_names\n900 foo\n', '!gamemap\n12 nope.anmm\n', '', '!', '!anmmap', 'anmmap\n', '\xff\xfe', '!anmmap\n!ins_names\nfoo bar\n', '!anmmap\n!ins_names\n900\n',
             '!anmmap\n!ins_names\n 900 foo # comment\n', '!anmmap\n!ins_names\n900 ' + 'x' * 100000 + '\n', '!anmmap\n!ins_signatures\n900 ' + 'S' * 5000 + '\n', '!anmmap\n' + '!ins_names\n' * 2000]
+    # section headers cut short / closed early at every position, and user enums that re-define the names of built-in enums and consts
+    # (their definitions have no source location: every diagnostic about them must still render)
+    hdr = '!enum(name="foo")'
+    for i in range(1, len(hdr)):
+        base.append('!anmmap\n' + hdr[:i] + '\n1 a\n'); base.append('!anmmap\n' + hdr[:i] + hdr[-2:] + '\n1 a\n'); base.append('!anmmap\n' + hdr[:i] + ')\n1 a\n')
+    for en in ['bool', 'BitmapColorFormat', 'AnmScript', 'AnmSprite', 'EclSub', 'MsgScript', 'TimelineDifficulty']:
+        for body in ['0 true\n', '1 false\n', '7 true\n0 false\n', '0 INF\n', '1 NAN\n', '1 PI\n', '3 FORMAT_ARGB_8888\n', '0 sprite0\n', '5 sprite0\n', '0 script0\n', '9 script0\n']:
+            base.append('!anmmap\n!enum(name="%s")\n%s' % (en, body))
+    base += ['!anmmap\n!gvar_names\n10000 true\n', '!anmmap\n!gvar_names\n10000 PI\n', '!anmmap\n!ins_names\n900 true\n', '!anmmap\n!gvar_names\n10000 sprite0\n10001 script0\n',
+             '!anmmap\n!difficulty_flags\n0 true-\n']
     out = list(base)
     for b in base[:12]:
         for _ in range(2):
@@ -161,7 +171,10 @@ def run_shard(ctx):
     for i, m in enumerate(mfs):
         if i % ctx.nshards == ctx.shard:
             if m.startswith('!eclmap') and 'timeline' in m: plan.append(('mapfile', 'ecl', 'th07', b'void s0() {\n ins_901("abc");\n}\nscript timeline0 {\n ins_900(s0, 1.0, 2.0);\n}\n', m))
-            else: plan.append(('mapfile', 'anm', 'th12', (MINI['anm'][0] % 'ins_900(1, 2, 3.0);').encode(), m))
+            else:
+                plan.append(('mapfile', 'anm', 'th12', (MINI['anm'][0] % 'ins_900(1, 2, 3.0);').encode(), m))
+                # (and with a source that does not depend on the mapfile, so that a mapfile that merely loads gets as far as the later passes)
+                if i % 2 == 0 or ctx.tier != 'quick': plan.append(('mapfile', 'anm', 'th12', (MINI['anm'][0] % '$REG[10000] = $REG[10001] + 3;\nins_3(sprite0);').encode(), m))
     # the typing matrix of C09 (every operator/condition/count construct x operand types, well- and ill-typed): no cell may crash the compiler
     from .. import typematrix as TM
     for (tool, ir, fr, ir2, fr2) in (('anm', '$REG[10000]', '%REG[10004]', '$REG[10001]', '%REG[10005]'), ('ecl', '$REG[10000]', '%REG[10004]', '$REG[10001]', '%REG[10005]')):
